@@ -1,0 +1,72 @@
+//go:build verif
+
+// C17: contract of the appendable.Appendable interface (assumed at every invoke site of multiapp; the implementation
+// singleapp.AppendableFile carries the same clauses as ensures of its own methods, checked there).
+// Frames: `assigns internal` = an implementation writes only its own state (and buffers it owns); callers in multiapp
+// observe that state only through method results, which are havoc here (ASSUMED frame: an Appendable stored in a
+// MultiFileAppendable never aliases that MultiFileAppendable).
+// File name: sorts after the other contract files of this package: another property states a subset of the ReadAt
+// clauses below (count + frame), and the engine keeps the last `iface` block per key.
+// Only result ranges: the byte-level part of C17 needs a ghost log (see /verif/notes/con-c17.md).
+package appendable
+
+//@ iface Appendable.Offset
+//@   ensures nonneg: r0 >= 0
+//@   assigns internal
+
+//@ iface Appendable.Size
+//@   ensures nonneg: r1 == nil ==> r0 >= 0
+//@   assigns internal
+
+//@ iface Appendable.CompressionFormat
+//@   assigns internal
+
+//@ iface Appendable.CompressionLevel
+//@   assigns internal
+
+//@ iface Appendable.Metadata
+//@   assigns internal
+
+//@ iface Appendable.Append
+//@   ensures off: r2 == nil ==> r0 >= 0
+//@   ensures count: 0 <= r1
+//@   assigns internal
+
+//@ iface Appendable.ReadAt
+//@   ensures count: 0 <= r0 && r0 <= len(bs)
+//@   ensures full: r1 == nil ==> r0 == len(bs)
+//@   assigns internal, bs
+
+//@ iface Appendable.SetOffset
+//@   ensures neg: off < 0 ==> r0 != nil
+//@   assigns internal
+
+//@ iface Appendable.DiscardUpto
+//@   assigns internal
+
+//@ iface Appendable.Flush
+//@   assigns internal
+
+//@ iface Appendable.Sync
+//@   assigns internal
+
+//@ iface Appendable.SwitchToReadOnlyMode
+//@   assigns internal
+
+//@ iface Appendable.Close
+//@   assigns internal
+
+// Frames of the Metadata builders used by multiapp.OpenWithHooks (assumed, not verified here: they only touch the
+// Metadata's own map / return fresh bytes). Without them every field of *Options is havocked between Validate and use.
+//@ func NewMetadata
+//@   ensures nonnil: r0 != nil
+//@   assigns internal
+
+//@ func (*Metadata).Put
+//@   assigns internal
+
+//@ func (*Metadata).PutInt
+//@   assigns internal
+
+//@ func (*Metadata).Bytes
+//@   assigns internal
